@@ -185,7 +185,7 @@ fn seq_equal(b: &[&Flat], a: &[&Flat]) -> Result<(), String> {
     Ok(())
 }
 
-enum FieldOp<'a> {
+pub enum FieldOp<'a> {
     Replace { name: &'a str, new_name: &'a str, value: &'a str },
     Append { name: &'a str, value: &'a str },
     Remove { name: &'a str },
@@ -194,7 +194,7 @@ enum FieldOp<'a> {
 
 /// Locality for a field edit on an attached paragraph. `ord_before`/`ord_after`: text ordinal of
 /// the paragraph among the non-empty ones before and after the edit.
-fn locality_field(before: &str, after: &str, ord_before: Option<usize>, ord_after: Option<usize>, op: &FieldOp, obs: &mut Obs) -> Result<(), String> {
+pub fn locality_field(before: &str, after: &str, ord_before: Option<usize>, ord_after: Option<usize>, op: &FieldOp, obs: &mut Obs) -> Result<(), String> {
     let (sb, sa) = match (segmenter::segment(before), segmenter::segment(after)) {
         (Some(b), Some(a)) => (b, a),
         _ => {
